@@ -126,6 +126,16 @@ class Repo(object):
                     else:
                         seen.setdefault(n.name, set()).add(ps)
         self._all_signatures = {k: [list(x) for x in v if x is not None] for k, v in seen.items()}
+        # package-qualified names: xtuml.f / bridgepoint.f -> the one module-level function f of that package
+        qualified = {}
+        for mname, m in self.modules.items():
+            pkg = mname.split('.')[0]
+            for n in m.tree.body:
+                if isinstance(n, ast.FunctionDef):
+                    a = n.args
+                    sig = None if (a.vararg or a.kwarg or a.kwonlyargs) else tuple(x.arg for x in a.posonlyargs + a.args)
+                    qualified.setdefault('%s.%s' % (pkg, n.name), set()).add(sig)
+        self._qualified = {k: list(next(iter(v))) for k, v in qualified.items() if len(v) == 1 and None not in v}
         # defaults: (callable name, parameter) -> default expressions seen
         self._defaults = {}
         for m in self.modules.values():
@@ -140,7 +150,9 @@ class Repo(object):
                             key = parent.name
                         self._defaults.setdefault((key, prm.arg), set()).add(ast.dump(d))
                         self._defaults.setdefault((key, prm.arg, 'node'), d)
-        return {k: list(next(iter(v))) for k, v in seen.items() if len(v) == 1 and None not in v}
+        out = {k: list(next(iter(v))) for k, v in seen.items() if len(v) == 1 and None not in v}
+        out.update(self._qualified)
+        return out
 
     def nfunc(self, qual):
         '''the function in NORMAL FORM (sa/normal.py): helpers outside the reference inventory inlined, temporaries folded,
